@@ -227,7 +227,7 @@ Section TriggerSync.
   (* the ranges a Sync on view v goes through from state st (all of them unless a failure stops it) *)
   Definition sync_ranges_of (fl : flavour) (v : view titem) (st : tstate) : list (Z * Z) :=
     let start := match reorg_target fl (node_of_view v) st with
-                 | Some to => to + 1
+                 | Some to => next_start fl (rollback_to (ts_core st) to)
                  | None => next_start fl (ts_core st)
                  end in
     match get_sync_ranges start (head_number v) (fl_range fl) with RangesDone rs => rs | RangesOutOfFuel => [] end.
@@ -277,11 +277,9 @@ Section TriggerSync.
     end.
 
   (* the views of a history: each is a well-formed view (non-empty, non-empty hashes, keys unique,
-     bounded head), has no admissible registration below the first synced block (D9 exclusion),
-     and hashes identify blocks *)
+     bounded head), and hashes identify blocks *)
   Definition tuniverse_ok (fl : flavour) (U : list (view titem)) : Prop :=
-    (forall u, In u U -> view_ok t_key t_admissible fl u /\
-                         quiet_before t_admissible u (fl_first_start fl)) /\
+    (forall u, In u U -> view_ok t_key t_admissible fl u) /\
     (forall u w, In u U -> In w U -> hash_determines u w).
 
 End TriggerSync.
